@@ -11,7 +11,12 @@ RULE = ("every batch-free program (leaves: child task | ConstFuture; a body = 0.
         "leaves) up to size n, plus every placement of <=k deviations from the batch-free menu (None leaf, tuple / dict / "
         "nested / one-element structures, empty list / tuple / dict, `yield None`, raise at any statement gap, try/except "
         "around any statement range with an empty handler or a handler that yields another child task, and a plain "
-        "synchronous call of an @asynq() function at any gap), each under 4 call styles (plain function, bound method, "
+        "synchronous call of an @asynq() function at any gap); on the 2-deviation rungs additionally, for every try statement "
+        "with an empty handler whose body can fail (raise in the body itself, in a yielded child or in a child inside a "
+        "yielded structure, or a refused synchronous call), the after-catch variants: `yield None` / `yield []` / `yield ()` / "
+        "`yield {}` / `yield ConstFuture` as the handler, and the same yield inserted right after the try statement (mixed "
+        "style without and with odd-id explicit asyncio_fn for size <=3, without for size 4; the same program may be "
+        "reached from two base programs); each under 4 call styles (plain function, bound method, "
         "@async_proxy returning fn.asynq(), mixed by task id mod 4 over function / method / proxy / asynq.async_call; "
         "constants are ConstFuture / a non-generator @asynq() method / an @async_proxy returning ConstFuture, by style) x 3 "
         "asyncio_fn modes (none / tasks with even id / tasks with odd id are declared with an explicit hand-written async "
@@ -46,6 +51,9 @@ ASSUMPTIONS = [
     "is compared with R1 where the call raises RuntimeError, the scheduler side with plain R1",
     "inside a hand-written asyncio_fn the flag is only required to be unchanged across its awaits (confinement), not to "
     "have a particular value",
+    "a yield that carries nothing (None, empty list / tuple / dict) is an ordinary yield: it receives None / the empty "
+    "container in both engines, also right after a caught failure; the after-catch variants are generated per base program, "
+    "so a few programs are executed twice (states counts executions' (program, configuration) pairs, not distinct programs)",
     "the asyncio ready queue is FIFO, so a batch-free program has one asyncio schedule per configuration",
 ]
 TECHNIQUE = "bounded exhaustive differential execution of a program family on two real engines vs a sequential reference interpreter"
@@ -84,6 +92,9 @@ LADDER = {
         (4, 3, MENU_TRY, CFG_ONE),
     ],
 }
+TAIL_K = 2  # the rungs with exactly this many deviations also run the after-catch variants (see tail_variants) ...
+TAIL_CFGS_SMALL = [[3, 0, 0], [3, 2, 0]]  # ... of programs of size <= 3 under these configurations
+TAIL_CFGS_LARGE = [[3, 0, 0]]  # ... and of larger programs under these
 PHASE2_MAX_K = 1  # rungs with <= this many deviations also run the second phase (see RULE) ...
 PHASE2_CFGS = [[0, 0, 0], [3, 0, 0], [3, 1, 0], [3, 2, 0], [3, 0, 1]]  # ... under these configurations
 INFO_LADDER = {"quick": (3, 1), "thorough": (4, 1)}
@@ -228,15 +239,84 @@ def normalize(term):
         return None
 
 
-def family(base, menu, k):
-    """(term, ndev) for every normalised program within k deviations of `base`"""
+def family(base, menu, k, tails=False):
+    """(term, ndev, is_tail_variant) for every normalised program within k deviations of `base`; with tails=True every
+    program that has a catching try statement is followed by its after-catch variants (see tail_variants)"""
     seen = set()
     for term, nd in (gen.deviated(base, menu, k) if k else [(base, 0)]):
         nt = normalize(term)
         if nt is None or nt in seen:
             continue
         seen.add(nt)
-        yield nt, nd
+        yield nt, nd, False
+        if tails and nd >= 2:
+            for v in tail_variants(nt):
+                if v not in seen:
+                    seen.add(v)
+                    yield v, nd, True
+
+
+# after-catch variants: a yield that carries nothing (None, empty list / tuple / dict) or only a constant, placed as the
+# handler of a catching try statement or right after that statement
+TAILS = (("y", ("n",)), ("y", ("L", ())), ("y", ("T", ())), ("y", ("D", ())), ("y", K))
+
+
+def _has_failure(x):
+    if isinstance(x, tuple):
+        if x and (x[0] == "raise" or x[0] == "sync"):
+            return True
+        for y in x:
+            if _has_failure(y):
+                return True
+    return False
+
+
+def tail_variants(term):
+    """for every try statement with an empty handler whose body (or a task below it) contains a raise / refused
+    synchronous call - i.e. a failure of a yielded child, of a yielded structure or of the body itself can be caught -
+    and every TAIL: the program with handler (TAIL,) and the program with TAIL inserted right after the try statement"""
+    for nt in _tv_task(term[1]):
+        yield ("P", nt, (), ())
+
+
+def _tv_task(t):
+    for b in _tv_block(t[1]):
+        yield ("t", b)
+
+
+def _tv_block(stmts):
+    for i, st in enumerate(stmts):
+        op = st[0]
+        if op == "try":
+            if st[2] == () and _has_failure(st[1]):
+                for tl in TAILS:
+                    yield stmts[:i] + (("try", st[1], (tl,)),) + stmts[i + 1:]
+                    yield stmts[:i + 1] + (tl,) + stmts[i + 1:]
+            for b in _tv_block(st[1]):
+                yield stmts[:i] + (("try", b, st[2]),) + stmts[i + 1:]
+            for b in _tv_block(st[2]):
+                yield stmts[:i] + (("try", st[1], b),) + stmts[i + 1:]
+        elif op == "y":
+            for ns in _tv_struct(st[1]):
+                yield stmts[:i] + (("y", ns),) + stmts[i + 1:]
+        elif op == "sync":
+            for nt in _tv_task(st[1]):
+                yield stmts[:i] + (("sync", nt, st[2]),) + stmts[i + 1:]
+
+
+def _tv_struct(s):
+    op = s[0]
+    if op == "L" or op == "T":
+        for i, x in enumerate(s[1]):
+            for nx in _tv_struct(x):
+                yield (op, s[1][:i] + (nx,) + s[1][i + 1:])
+    elif op == "D":
+        for i, (k, x) in enumerate(s[1]):
+            for nx in _tv_struct(x):
+                yield ("D", s[1][:i] + ((k, nx),) + s[1][i + 1:])
+    elif op == "c":
+        for nt in _tv_task(s[1]):
+            yield ("c", nt)
 
 
 # --------------------------------------------------------------------------------------------------
@@ -276,7 +356,10 @@ def jobs(tier, seed):
             if not cs:
                 continue
             for bases in _chunked(bf_programs(size), _chunk(size, k, len(cs))):
-                yield {"family": "main", "bases": bases, "menu": menu if k else [], "k": k, "cfgs": cs, "phase2": k <= PHASE2_MAX_K}
+                j = {"family": "main", "bases": bases, "menu": menu if k else [], "k": k, "cfgs": cs, "phase2": k <= PHASE2_MAX_K}
+                if k == TAIL_K:
+                    j["tail_cfgs"] = TAIL_CFGS_SMALL if size <= 3 else TAIL_CFGS_LARGE
+                yield j
         done.append((n, k, menu, cfgs))
     n, k = INFO_LADDER[tier]
     for size in range(1, n + 1):
@@ -577,7 +660,7 @@ def run(job, env):
     idx = 0
     for base in job["bases"]:
         base = progx._tuplify(base)
-        for term, nd in family(base, job["menu"], job["k"]):
+        for term, nd, is_tail in family(base, job["menu"], job["k"], tails=bool(job.get("tail_cfgs"))):
             idx += 1
             hb[0] = time.time()
             hb[2] = idx
@@ -588,10 +671,13 @@ def run(job, env):
                 continue
             ref = Ref(prog)
             cnt["programs"] = cnt.get("programs", 0) + 1
-            cnt["programs_dev%d" % nd] = cnt.get("programs_dev%d" % nd, 0) + 1
+            if is_tail:
+                cnt["programs_after_catch_variants"] = cnt.get("programs_after_catch_variants", 0) + 1
+            else:
+                cnt["programs_dev%d" % nd] = cnt.get("programs_dev%d" % nd, 0) + 1
             if ref.nontrivial:
                 out["nontrivial"] += 1
-            for style, aio, xv in job["cfgs"]:
+            for style, aio, xv in (job["tail_cfgs"] if is_tail else job["cfgs"]):
                 if ref.has_sync and aio:
                     cnt["skipped_sync_call_with_explicit_asyncio_fn"] = cnt.get("skipped_sync_call_with_explicit_asyncio_fn", 0) + 1
                     continue
@@ -644,7 +730,9 @@ def replay(case, env):
 
 
 def finish(acc, tier):
-    return {"bounds": {"second phase (fresh watcher + second await)": {"rungs with deviations <=": PHASE2_MAX_K, "configurations": PHASE2_CFGS},
+    return {"bounds": {"after-catch variants": {"on rungs with deviations ==": TAIL_K, "tails": [list(t) for t in TAILS],
+                                                "configurations size<=3": TAIL_CFGS_SMALL, "configurations larger": TAIL_CFGS_LARGE},
+                       "second phase (fresh watcher + second await)": {"rungs with deviations <=": PHASE2_MAX_K, "configurations": PHASE2_CFGS},
                        "ladder (size<=n, deviations<=k, menu, [style, asyncio_fn mode, exception-valued variant])": LADDER[tier],
                        "styles": list(STYLE_NAMES), "asyncio_fn modes": ["none", "even task ids explicit", "odd task ids explicit"],
                        "informational family (size<=n, deviations<=k, menu)": list(INFO_LADDER[tier]) + [INFO_MENU]},
